@@ -181,6 +181,138 @@ func reuseCase(t *mon.T) {
 	t.Nontrivial(fmt.Sprint(hist))
 }
 
+// isolationCase: values produced by copying APIs must not share storage with
+// their source: mutate the copy in place and the source must stay bit-for-bit
+// unchanged, and the other way round.
+func isolationCase(t *mon.T) {
+	r := t.Rng
+	// heap-backed and inline sources
+	var v *big.Int
+	switch r.Intn(3) {
+	case 0:
+		v = new(big.Int).Rand(rngSource(r), new(big.Int).Lsh(bOne, uint(130+r.Intn(900))))
+	case 1:
+		v = new(big.Int).Rand(rngSource(r), new(big.Int).Lsh(bOne, uint(1+r.Intn(128))))
+	default:
+		v = bigValue(r)
+		v.Abs(v)
+	}
+	if r.Chance(1, 4) {
+		v.Neg(v)
+	}
+	src := new(apd.BigInt).SetMathBigInt(v)
+	srcD := br.ToApd(dec.D{Form: dec.Finite, Neg: r.Bool(), C: new(big.Int).Abs(v), E: r.Range(-30, 30)})
+	ctx := apd.BaseContext.WithPrecision(0)
+	one := apd.New(1, 0)
+	type pair struct {
+		name      string
+		a, b      func() string // renderings of the two sharers
+		mutA, muB func()        // in-place mutations
+	}
+	bump := func(d *apd.Decimal) {
+		// in-place slow-path arithmetic on the destination
+		ctx.Add(d, d, one)
+		ctx.Mul(d, d, d)
+		d.Coeff.Lsh(&d.Coeff, 3)
+	}
+	check := func(name string, before string, after func() string, what string) {
+		t.Eval()
+		t.Count("isolation/" + name)
+		if got := after(); got != before {
+			t.Fail("copy-shares-storage", map[string]interface{}{"api": name, "why": what, "before": before, "after": got, "source_bits": v.BitLen()})
+		}
+	}
+	switch r.Intn(7) {
+	case 0: // NewWithBigInt
+		nd := apd.NewWithBigInt(src, 3)
+		nd2 := apd.NewWithBigInt(src, -2)
+		b0, s0 := reprOf(nd2), src.String()
+		bump(nd)
+		check("NewWithBigInt", s0, src.String, "mutating the new Decimal changed the caller's BigInt")
+		check("NewWithBigInt", b0, func() string { return reprOf(nd2) }, "mutating one Decimal changed a sibling built from the same BigInt")
+		n0 := reprOf(nd)
+		src.Add(src, src)
+		src.Lsh(src, 7)
+		check("NewWithBigInt", n0, func() string { return reprOf(nd) }, "mutating the caller's BigInt changed the Decimal")
+	case 1: // Decimal.Set
+		var c apd.Decimal
+		c.Set(srcD)
+		s0 := reprOf(srcD)
+		bump(&c)
+		check("Decimal.Set", s0, func() string { return reprOf(srcD) }, "mutating the copy changed the source")
+		c0 := reprOf(&c)
+		bump(srcD)
+		check("Decimal.Set", c0, func() string { return reprOf(&c) }, "mutating the source changed the copy")
+	case 2: // BigInt.Set / Abs / Neg
+		var c apd.BigInt
+		switch r.Intn(3) {
+		case 0:
+			c.Set(src)
+		case 1:
+			c.Abs(src)
+		default:
+			c.Neg(src)
+		}
+		s0 := src.String()
+		c.Mul(&c, &c)
+		c.Add(&c, apd.NewBigInt(1))
+		check("BigInt.Set/Abs/Neg", s0, src.String, "mutating the copy changed the source")
+		c0 := c.String()
+		src.Lsh(src, 5)
+		src.Add(src, src)
+		check("BigInt.Set/Abs/Neg", c0, c.String, "mutating the source changed the copy")
+	case 3: // MathBigInt / SetMathBigInt
+		m := src.MathBigInt()
+		s0 := src.String()
+		m.Mul(m, m)
+		m.Add(m, big.NewInt(1))
+		check("MathBigInt", s0, src.String, "mutating the returned big.Int changed the BigInt")
+		ext := new(big.Int).Set(v)
+		var c apd.BigInt
+		c.SetMathBigInt(ext)
+		c0 := c.String()
+		ext.Lsh(ext, 9)
+		ext.Add(ext, big.NewInt(3))
+		check("SetMathBigInt", c0, c.String, "mutating the argument changed the BigInt")
+	case 4: // Abs/Neg/Reduce of a Decimal are copies too
+		var c apd.Decimal
+		switch r.Intn(3) {
+		case 0:
+			c.Abs(srcD)
+		case 1:
+			c.Neg(srcD)
+		default:
+			c.Reduce(srcD)
+		}
+		s0 := reprOf(srcD)
+		bump(&c)
+		check("Decimal.Abs/Neg/Reduce", s0, func() string { return reprOf(srcD) }, "mutating the result changed the operand")
+	case 5: // Compose must not retain the coefficient buffer; Decompose must return a private one
+		form, neg, coef, exp := srcD.Decompose(nil)
+		var c apd.Decimal
+		buf := append([]byte(nil), coef...)
+		c.Compose(form, neg, buf, exp)
+		c0 := reprOf(&c)
+		for i := range buf {
+			buf[i] ^= 0x5a
+		}
+		check("Compose", c0, func() string { return reprOf(&c) }, "Compose retained the caller's coefficient buffer")
+		s0 := reprOf(srcD)
+		for i := range coef {
+			coef[i] ^= 0xa5
+		}
+		check("Decompose", s0, func() string { return reprOf(srcD) }, "Decompose returned the Decimal's own storage")
+	case 6: // results of Context operations do not share storage with operands
+		var d apd.Decimal
+		op := []string{"round", "abs", "neg", "add", "reduce", "rtiv", "quantize"}[r.Intn(7)]
+		callOn(op, ctx, &d, srcD, apd.New(0, srcD.Exponent), int64(srcD.Exponent))
+		s0 := reprOf(srcD)
+		bump(&d)
+		check("Context."+op, s0, func() string { return reprOf(srcD) }, "mutating the result changed the operand")
+	}
+	t.Nontrivial(fmt.Sprintf("iso|%d|%d", v.BitLen(), t.Index%7))
+}
+
 // setterCase: non-Context operations that write a destination.
 func setterCase(t *mon.T) {
 	r := t.Rng
@@ -318,7 +450,9 @@ func runC06(r *mon.Run) {
 		"(including the BigInt inline/heap representation through the VerifRepr hook) before and after each call; the package-level shared " +
 		"state fingerprint (VerifSharedState hook: constants, lookup tables, BaseContext) is taken every 1500 cases and at the end; 64 canary " +
 		"calls are evaluated at the start and re-evaluated after every family; a 'reuse' family replays 10-call histories on recycled " +
-		"operand and destination objects and compares every call with the same call on fresh objects. distinct_nontrivial = distinct (op, operands, non-zero destination pre-state)."
+		"operand and destination objects and compares every call with the same call on fresh objects; an 'isolation' family mutates " +
+		"copies (NewWithBigInt, Set, Abs, Neg, Reduce, MathBigInt, SetMathBigInt, Compose/Decompose buffers, results of Context " +
+		"operations) in place and checks that their source is unchanged, and vice versa. distinct_nontrivial = distinct (op, operands, non-zero destination pre-state)."
 	r.Assumptions = []string{"relational: apd compared with apd; meaningful fields per form (NaN: sign and payload; Infinity: sign; finite: all fields)"}
 	sharedFP.first = ""
 	sharedFP.checks = 0
@@ -373,6 +507,7 @@ func runC06(r *mon.Run) {
 	})
 	r.Parallel("purity", r.N(120000, 12000000), purityCase)
 	r.Parallel("reuse", r.N(15000, 1500000), reuseCase)
+	r.Parallel("isolation", r.N(60000, 4000000), isolationCase)
 	recheck("after-purity")
 	r.Parallel("setters", r.N(80000, 6000000), setterCase)
 	recheck("after-setters")
